@@ -43,8 +43,12 @@ def build_script(steps, cuts, first_eager, b2b):
     return actions
 
 
-def observe(role, steps, cuts, first_eager=False, b2b=False, budget=20000, max_pdu=65536):
-    sim = simnet.run_scenario(role, build_script(steps, cuts, first_eager, b2b), budget=budget, max_pdu=max_pdu)
+def observe(role, steps, cuts, first_eager=False, b2b=False, budget=20000, max_pdu=65536, timeout_mode=False):
+    # timeout_mode: the application called socket.setdefaulttimeout(30) - the transport socket is in time-out mode,
+    # in which the kernel may take only part of what send() is given (here: 7 bytes at a time) and MSG_WAITALL does
+    # not wait
+    kw = dict(sock_timeout=30.0, sndbuf=7) if timeout_mode else {}
+    sim = simnet.run_scenario(role, build_script(steps, cuts, first_eager, b2b), budget=budget, max_pdu=max_pdu, **kw)
     out = sim.outcome
     return {
         'outcome': out[0] if out[0] != 'exception' else 'exception:' + lib_frame(out[1]),
@@ -102,12 +106,14 @@ def nontrivial(steps, cuts):
     return False
 
 
-def run_variant(ctx, name, role, steps, base, cuts, first_eager, b2b, label):
-    case = {'conv': name, 'cuts': {str(k): v for k, v in cuts.items()}, 'first_eager': first_eager, 'b2b': b2b}
-    ctx.case((name, sorted(cuts.items()), first_eager, b2b), nontrivial(steps, cuts),
-             labels=[label, 'conv=' + name, 'first_eager=%s' % first_eager, 'b2b=%s' % b2b],
+def run_variant(ctx, name, role, steps, base, cuts, first_eager, b2b, label, timeout_mode=False):
+    case = {'conv': name, 'cuts': {str(k): v for k, v in cuts.items()}, 'first_eager': first_eager, 'b2b': b2b,
+            'timeout_mode': timeout_mode}
+    ctx.case((name, sorted(cuts.items()), first_eager, b2b, timeout_mode), nontrivial(steps, cuts),
+             labels=[label, 'conv=' + name, 'first_eager=%s' % first_eager, 'b2b=%s' % b2b] +
+             (['socket-in-timeout-mode'] if timeout_mode else []),
              sample=case)
-    got = observe(role, steps, cuts, first_eager, b2b)
+    got = observe(role, steps, cuts, first_eager, b2b, timeout_mode=timeout_mode)
     try:
         compare(name, base, got, case)
     except Violation as v:
@@ -298,6 +304,7 @@ def run_conv(ctx, job):
     # whole bursts at once / one-byte dribble
     for fe, b2b in MODES:
         run_variant(ctx, name, role, steps, base, {}, fe, b2b, 'burst-at-once')
+        run_variant(ctx, name, role, steps, base, {}, fe, b2b, 'burst-at-once', timeout_mode=True)
         run_variant(ctx, name, role, steps, base, {bi: list(range(1, n)) for bi, n, _ in info}, fe, b2b, 'dribble')
     # every single cut offset
     k = 0
@@ -307,6 +314,9 @@ def run_conv(ctx, job):
             k += 1
             for fe, b2b in modes:
                 run_variant(ctx, name, role, steps, base, {bi: [c]}, fe, b2b, 'single-cut')
+            if k % 3 == 0:
+                # the same cut with the transport socket in time-out mode
+                run_variant(ctx, name, role, steps, base, {bi: [c]}, modes[0][0], modes[0][1], 'single-cut', timeout_mode=True)
     # every pair of cut offsets (same burst, and across two bursts)
     if job['pairs']:
         k = 0
@@ -539,4 +549,5 @@ def replay(case):
             raise Violation('C03:baseline:%s' % base['outcome'], base['detail'], case)
         return
     cuts = {int(k): v for k, v in case['cuts'].items()}
-    compare(case['conv'], base, observe(role, steps, cuts, case['first_eager'], case['b2b']), case)
+    compare(case['conv'], base, observe(role, steps, cuts, case['first_eager'], case['b2b'],
+                                        timeout_mode=case.get('timeout_mode', False)), case)
